@@ -262,3 +262,31 @@ def script_from(values, gid):
             out.append(None)
         out.append(v)
     return out
+
+
+class scripted_rng:
+    """Replay-side: every generator the REAL code creates through black_it.utils.seedable.default_rng returns the draws the
+    solver model assigned to the generator created at the same position (then falls back to a real, seeded generator)."""
+
+    def __init__(self, values):
+        self.values = values
+        self.n = 0
+
+    def __enter__(self):
+        import black_it.utils.seedable as seedable
+
+        self._mod = seedable
+        self._old = seedable.default_rng
+
+        def mk(seed=None):
+            gid = self.n
+            self.n += 1
+            fb = seed if isinstance(seed, (int, np.integer)) else 0
+            return ScriptedGenerator(script_from(self.values, gid), int(fb) % 2**32)
+
+        seedable.default_rng = mk
+        return self
+
+    def __exit__(self, *exc):
+        self._mod.default_rng = self._old
+        return False
